@@ -494,8 +494,11 @@ def gen_c07(r, knobs=None):
             names = b.names(cid)
             if t < 0.2:
                 n = r.choice(names)
-                dele = r.random() < 0.4 and b.delete_ok(cid, [n], live)
-                if dele and faulty and r.random() < 0.5:
+                dirs_ = [x for x in names if b.insts(cid)[x].kind in ('dir', 'listnp', 'cont')]
+                if faulty and dirs_ and r.random() < 0.5:
+                    n = r.choice(dirs_)       # directory-type results are removed entry by entry
+                dele = r.random() < (0.7 if faulty else 0.4) and b.delete_ok(cid, [n], live)
+                if dele and faulty and r.random() < 0.6:
                     # a file-system error while the stored result is removed: force has to report it (or have removed everything)
                     b.op(op='tforce', cid=cid, task=n, name=n, delete=True, diskerr={'k': r.randint(0, 4), 'errno': r.choice(['EIO', 'EACCES', 'EBUSY'])})
                 else:
